@@ -286,6 +286,19 @@ func (e *Engine) registerFSIntrinsics() {
 	in["os.IsExist"] = func(r *Run, fr *frame, a []Value) Value {
 		return r.equal(nil, a[0], exist(r))
 	}
+	in["os.ReadDir"] = func(r *Run, fr *frame, a []Value) Value {
+		names := callH(r, fr, "vfsReadDir", a[0]).(SliceV)
+		if names.Nil || names.Data == nil {
+			return Tuple{SliceV{Nil: true}, notExist(r)}
+		}
+		kinds := callH(r, fr, "vfsReadDirKinds", a[0]).(SliceV)
+		deT := r.eng.prog.ImportedPackage("io/fs").Type("DirEntry").Type()
+		var out []Value
+		for i, n := range names.Data {
+			out = append(out, Iface{T: deT, V: &dirEntryObj{name: n.(StrV), dir: r.concreteInt(kinds.Data[i], "kind") == 1}})
+		}
+		return Tuple{SliceV{Data: out}, Iface{}}
+	}
 	in["os.Mkdir"] = func(r *Run, fr *frame, a []Value) Value {
 		switch r.concreteInt(callH(r, fr, "vfsMkdir", a[0]), "vfsMkdir") {
 		case 0:
@@ -325,6 +338,21 @@ func (f *fileInfoObj) method(name string) Value {
 }
 
 type fileObj struct{}
+
+type dirEntryObj struct {
+	name StrV
+	dir  bool
+}
+
+func (d *dirEntryObj) method(name string) Value {
+	switch name {
+	case "Name":
+		return &hostFunc{name: "DirEntry.Name", f: func(r *Run, fr *frame, a []Value) Value { return d.name }}
+	case "IsDir":
+		return &hostFunc{name: "DirEntry.IsDir", f: func(r *Run, fr *frame, a []Value) Value { return BoolV{C: d.dir} }}
+	}
+	panic(unsupported("DirEntry." + name))
+}
 
 // ---- verify-side stubs: os.DirFS + fs.WalkDir over the harness model, errors.Is, fmt.Sprintf ----
 
